@@ -32,7 +32,13 @@ def expected(r: Row) -> Any:
     exp: Dict[str, Any] = {"entries": [], "defpush": [], "defpop": 0, "clspush": [], "clspop": 0, "awaiting": None,
                            "attach": [], "mark": [], "claim": []}
     inc = v.get("inc:" + k)
-    documenting = ev == "DOC" or inc is True
+    if inc is None and ev == "UNDOC":
+        consulted = [val for key, val in v.items() if key.startswith("inc:")]
+        # the kind's own flag is not consulted (C08 reports that); behaviour follows the flags that were
+        inc_eff = all(consulted) if consulted else None
+    else:
+        inc_eff = inc
+    documenting = ev == "DOC" or inc_eff is True
     if ev in ("DANGLING",):
         return exp
     if ev == "MODULE":
@@ -50,8 +56,8 @@ def expected(r: Row) -> Any:
             exp["awaiting"] = "clear"
             exp["claim"] = ["is_macro", "params?"]
             return exp
-        if ev == "UNDOC" and inc is None:
-            return {"__problem__": f"include_undocumented_{k} is not consulted for an undocumented {k}()", "__part__": "entries"}
+        if ev == "UNDOC" and inc_eff is None:
+            return {"__problem__": f"include_undocumented_{k} is not consulted for an undocumented {k}()", "__part__": "flags"}
         if documenting:
             exp["entries"] = [ENTRY_CLASS[k]]
             exp["defpush"] = ["entry"]
@@ -71,8 +77,8 @@ def expected(r: Row) -> Any:
             exp["mark"] = ["top"]
         return exp
     if k == "cpp_class":
-        if ev == "UNDOC" and inc is None:
-            return {"__problem__": "include_undocumented_cpp_class is not consulted for an undocumented cpp_class()", "__part__": "entries"}
+        if ev == "UNDOC" and inc_eff is None:
+            return {"__problem__": "include_undocumented_cpp_class is not consulted for an undocumented cpp_class()", "__part__": "flags"}
         if documenting:
             exp["entries"] = ["ClassDocumentation"]
             exp["clspush"] = ["class"]
@@ -87,8 +93,8 @@ def expected(r: Row) -> Any:
         exp["clspop"] = 1
         return exp
     if k in MEMBER_FIELD:
-        if ev == "UNDOC" and inc is None:
-            return {"__problem__": f"include_undocumented_{k} is not consulted for an undocumented {k}()", "__part__": "entries"}
+        if ev == "UNDOC" and inc_eff is None:
+            return {"__problem__": f"include_undocumented_{k} is not consulted for an undocumented {k}()", "__part__": "flags"}
         if documenting:
             if v.get("cls_nonempty") is None:
                 return {"__problem__": f"{k} does not check that a class is open", "__part__": "attach"}
@@ -104,15 +110,15 @@ def expected(r: Row) -> Any:
                 exp["awaiting"] = "set:MethodDocumentation"
         return exp
     if k in ("ct_add_test", "ct_add_section"):
-        if ev == "UNDOC" and inc is None:
-            return {"__problem__": f"include_undocumented_{k} is not consulted for an undocumented {k}()", "__part__": "entries"}
+        if ev == "UNDOC" and inc_eff is None:
+            return {"__problem__": f"include_undocumented_{k} is not consulted for an undocumented {k}()", "__part__": "flags"}
         if documenting:
             exp["entries"] = [ENTRY_CLASS[k]]
             exp["awaiting"] = "set:" + ENTRY_CLASS[k]
         return exp
     if k in ("add_test", "option"):
-        if ev == "UNDOC" and inc is None:
-            return {"__problem__": f"include_undocumented_{k} is not consulted for an undocumented {k}()", "__part__": "entries"}
+        if ev == "UNDOC" and inc_eff is None:
+            return {"__problem__": f"include_undocumented_{k} is not consulted for an undocumented {k}()", "__part__": "flags"}
         if documenting:
             exp["entries"] = [ENTRY_CLASS[k]]
         return exp
@@ -234,7 +240,7 @@ def rule_protocol_default(rep: Report, repo: Repo, rule: str) -> None:
     """C02-R1."""
     rep.rule(rule, "under default flags every event appends exactly the entries the property prescribes and nothing else "
                    "(protocol table, all command kinds x DOC/UNDOC x abstract state valuations)")
-    lm = model(repo)
+    lm = model(repo, upper=True)        # command names in any letter case
     rows = [r for r in all_rows(lm) if default_flags(r)]
     rows += lm.rows("DANGLING", "-") + lm.rows("MODULE", "-")
     n = check_rows(rep, rule, rows, ["entries", "awaiting", "claim"], "entry protocol")
@@ -367,7 +373,7 @@ def rule_no_crash(rep: Report, repo: Repo, rule: str) -> None:
     """C05-R5: dispatch through the process_ prefix cannot crash."""
     rep.rule(rule, "every method reachable through the process_<command> dispatch has the (ctx, docstring) signature and, on the "
                    "undocumented path, an include_undocumented_<command> option: no CRASH effect in the table")
-    lm = model(repo)
+    lm = model(repo, upper=True)
     kinds = lm.kinds() + [k for k in lm.process_kinds if k not in lm.kinds()]
     n = 0
     for k in kinds:
